@@ -47,14 +47,39 @@ def run_one(path, repo="/repo", keep=False):
             shutil.rmtree(tmp, ignore_errors=True)
 
 
+def seeded_as_patch(seed_id):
+    """a temporary patch file with the selftest header built from seeded/<id>/meta.json"""
+    import json
+    sd = os.path.join(VERIF, "seeded", seed_id)
+    meta = json.load(open(os.path.join(sd, "meta.json")))
+    tmp = tempfile.NamedTemporaryFile("w", suffix=".patch", delete=False)
+    tmp.write("# property: %s\n# expect: %s\n# what: seeded change %s\n" % (meta["check_property"], meta["expect_key"], seed_id))
+    tmp.write(open(os.path.join(sd, "patch.diff")).read())
+    tmp.close()
+    return tmp.name
+
+
 def main(argv):
     d = os.path.join(VERIF, "selftest", "mutants")
-    names = argv or sorted(f[:-6] for f in os.listdir(d) if f.endswith(".patch"))
+    seeds = sorted(x for x in os.listdir(os.path.join(VERIF, "seeded")) if os.path.exists(os.path.join(VERIF, "seeded", x, "meta.json")))
+    names = argv or (sorted(f[:-6] for f in os.listdir(d) if f.endswith(".patch")) + ["seed:" + x for x in seeds])
+    jobs = int(os.environ.get("TV_SELFTEST_JOBS", "4"))
+    from concurrent.futures import ThreadPoolExecutor
+
+    def one(n):
+        if n.startswith("seed:"):
+            p = seeded_as_patch(n[5:])
+            try:
+                return n, run_one(p)
+            finally:
+                os.unlink(p)
+        return n, run_one(os.path.join(d, n + ".patch"))
     bad = 0
-    for n in names:
-        ok, msg = run_one(os.path.join(d, n + ".patch"))
-        print("%s %-40s %s" % ("PASS" if ok else "FAIL", n, msg))
-        bad += 0 if ok else 1
+    with ThreadPoolExecutor(max_workers=jobs) as ex:
+        for n, (ok, msg) in ex.map(one, names):
+            print("%s %-40s %s" % ("PASS" if ok else "FAIL", n, msg), flush=True)
+            bad += 0 if ok else 1
+    print("selftest: %d/%d caught" % (len(names) - bad, len(names)))
     return 1 if bad else 0
 
 
